@@ -28,6 +28,7 @@ type World struct {
 	Specs         map[string]*SpecFunc
 	ContractFiles []string
 	LoadSeconds   float64
+	TypeInvs      map[string][]*Clause // receiver type key, e.g. (*frame.codec)
 }
 
 type fnInfo struct {
@@ -57,7 +58,7 @@ func Load(dir string, overlay map[string][]byte) (*World, error) {
 	prog.Build()
 	w := &World{Prog: prog, Pkgs: pkgs, SSAPkgs: map[string]*ssa.Package{}, Funcs: map[string]*ssa.Function{},
 		Contracts: map[string]*Contract{}, NoInline: map[string]bool{}, infos: map[*ssa.Function]*fnInfo{}, modsets: map[*ssa.Function]*modSet{},
-		Specs: map[string]*SpecFunc{}}
+		Specs: map[string]*SpecFunc{}, TypeInvs: map[string][]*Clause{}}
 	for i, sp := range spkgs {
 		if sp == nil {
 			continue
@@ -271,7 +272,14 @@ func (w *World) modOfCall(cc *ssa.CallCommon, m *modSet, active map[*ssa.Functio
 		m.add(w.modSetLocked(mc.Fn.(*ssa.Function), active))
 		return
 	}
-	m.all = true
+	// dynamic call: any repository function or closure of identical signature may be the callee
+	sig := cc.Signature()
+	for _, fn := range w.Funcs {
+		if fn.Signature.Recv() == nil && fn.Blocks != nil && types.Identical(fn.Signature, sig) {
+			m.add(w.modSetLocked(fn, active))
+		}
+	}
+	m.fams["G<stream>"] = true
 }
 
 func (w *World) argMod(t types.Type, m *modSet) {
@@ -354,3 +362,6 @@ func (w *World) loopModSet(fn *ssa.Function, li *loopInfo) *modSet {
 }
 
 var _ = ast.Inspect
+
+// ModSetList exposes the static mod-set of fn (diagnostics).
+func (w *World) ModSetList(fn *ssa.Function) []string { return w.modSet(fn).list() }
